@@ -184,6 +184,13 @@ def c02(tier):
                                                  "f3.rs": [S(31)]}, lock=None, structured=structured))
     if tier != "thorough":
         scens = scens[:3]
+    # the top of the ID range: a run that exhausts the range must leave a lock that still dominates
+    hi = rl.bl.U32MAX - 9
+    for structured in (False, True):
+        for lock in (7, 8, None):
+            sc = rl.Scenario("near-u32-max", {"f1.rs": [S(11), S(12, ref=hi + 6)], "f2.rs": [S(21), S(22)], "f3.rs": [S(31)]},
+                             lock=lock, base=hi, structured=structured)
+            rl.planned_runs(binary, sc, [[("edit", "")]], batch, v, follow="c02", sigbase={"embedding": "high"})
     for sc in scens:
         K, n = rl.sweep(binary, sc, "edit", kinds, batch, v, follow="c02")
         log("[sweep] %s: %d operations, %d histories" % (sc.name, K, n))
@@ -205,13 +212,13 @@ def c04(tier):
     n = 0
     for structured in (False, True):
         for use_cache in (None, True, False):
-            for lock in (None, 7, "corrupt", "empty"):
+            for lock in (None, 7, 2, 3, "corrupt", "empty"):
                 for tree in ({"f1.rs": [S(11), S(12, ref=3)], "f2.rs": [S(21)]},
                              {"f1.rs": [S(11, ref=1)], "f2.rs": [S(21, ref=2), S(22, kind="unusable")]},
                              {"f1.rs": [S(11)], "f2.rs": []}):
                     for bad in ((), ("f2.rs",)):
                         sc = rl.Scenario("cfg-%d" % n, tree, lock=lock, structured=structured, use_cache=use_cache,
-                                         bad=bad, extra_files=EXTRA)
+                                         bad=bad, extra_files=EXTRA, tmp_leftovers=(n % 2 == 0))
                         n += 1
                         rl.planned_runs(binary, sc, [[("check", "")]], batch, v,
                                         sigbase={"use_cache": use_cache, "lock": str(lock)})
